@@ -6,7 +6,9 @@
 
 #include <openssl/evp.h>
 #include <sys/mman.h>
+#include <thread>
 #include <openssl/hmac.h>
+#include <openssl/sha.h>
 
 using namespace pbt;
 
@@ -520,7 +522,9 @@ static rc::Gen<Case> gen_crc(int) {
     v.push_back(len);  // whatever remains
     v.push_back(*range<int>(0, 15));
     Case c;
-    c.push_back(Op("crc", {kind, *range<int64_t>(0, 1000000), len}));
+    // one case in six: the data starts with a complete codeword (message || its CRC32C, what a receiver feeds to check a record) and an update call
+    // begins exactly behind it, i.e. while the running remainder is the one of a codeword
+    c.push_back(Op("crc", {kind, *range<int64_t>(0, 1000000), len, *range<int>(0, 5) == 0 ? 1 : 0, *range<int>(0, 4096)}));
     c.push_back(Op("cut", v));
     return c;
   });
@@ -532,6 +536,14 @@ static Outcome run_crc(const Case &c) {
   std::string data = make_bytes(c[0].a[0], (uint64_t)c[0].a[1], (size_t)len);
   std::vector<int64_t> cuts;
   if (c.size() > 1) cuts = c[1].a;
+  size_t cw_end = 0;  // end of an embedded codeword (0: none); a piece never runs across it
+  if (c[0].a.size() >= 5 && c[0].a[3] == 1 && len >= 4) {
+    size_t l1 = (size_t)(std::max<int64_t>(0, c[0].a[4]) % (len - 3));
+    std::string crc1 = crc_expected(data.substr(0, l1));
+    data.replace(l1, 4, crc1);
+    cw_end = l1 + 4;
+    o.cls("an update call starts right behind a complete codeword");
+  }
   void *ctx = c01_crc_new();
   c01_crc_init(ctx);
   size_t pos = 0;
@@ -557,8 +569,15 @@ static Outcome run_crc(const Case &c) {
   };
   for (size_t i = 0; i + 1 < cuts.size() && npieces < 4096; i += 2) {
     size_t n = cuts[i] < 0 ? 0 : (size_t)std::min<uint64_t>((uint64_t)cuts[i], data.size() - pos);
-    feed(n, (int)(((cuts[i + 1] % 16) + 16) % 16));
+    int off = (int)(((cuts[i + 1] % 16) + 16) % 16);
+    if (cw_end && pos < cw_end && pos + n > cw_end) {
+      size_t n1 = cw_end - pos;
+      feed(n1, off);
+      n -= n1;
+    }
+    feed(n, off);
   }
+  if (pos < data.size() && cw_end && pos < cw_end) feed(cw_end - pos, 0);
   if (pos < data.size()) feed(data.size() - pos, 0);
   ptxt += "]";
   uint8_t *out = (uint8_t *)malloc(4);
@@ -752,6 +771,97 @@ static Outcome run_giant_crc(const Case &c) {
                                hex(std::string((char *)many, 4)));
   return o;
 }
+// PBKDF2 with an output longer than 2^32 bytes (the documented limit is 32 * (2^32 - 1)), c = 1.  The output buffer is address space only: its
+// first and its last two 2 MiB windows are private memory, all windows between are one 2 MiB memfd mapped over and over.  T_1, T_2 and every
+// block from T_{2^27 - 1} on are compared with HMAC(P, S || INT(i)) by OpenSSL.
+static Outcome run_giant_pbkdf2(const Case &c) {
+  Outcome o;
+  if (c.empty() || c[0].a.size() < 2) return o;
+  const size_t WIN = (size_t)2 << 20;
+  size_t dk = ((size_t)1 << 32) + 1 + (size_t)(std::max<int64_t>(0, c[0].a[0]) % 300);
+  size_t nwin = (dk + WIN - 1) / WIN;
+  std::string P = prbytes(0x9b0 + (uint64_t)c[0].a[0], 1 + (size_t)(c[0].a[1] & 63)), S = prbytes(0x9b1 + (uint64_t)c[0].a[1], (size_t)(c[0].a[0] & 31));
+  uint8_t *out = (uint8_t *)mmap(nullptr, nwin * WIN, PROT_NONE, MAP_PRIVATE | MAP_ANONYMOUS | MAP_NORESERVE, -1, 0);
+  int mfd = memfd_create("c01-window", 0);
+  if (out == MAP_FAILED || mfd < 0 || ftruncate(mfd, (off_t)WIN) != 0) harness_error("cannot set up the 4 GiB output mapping");
+  for (size_t w = 0; w < nwin; w++) {
+    bool priv = w == 0 || w + 2 >= nwin;
+    void *r = priv ? mmap(out + w * WIN, WIN, PROT_READ | PROT_WRITE, MAP_PRIVATE | MAP_ANONYMOUS | MAP_FIXED, -1, 0)
+                   : mmap(out + w * WIN, WIN, PROT_READ | PROT_WRITE, MAP_SHARED | MAP_FIXED, mfd, 0);
+    if (r == MAP_FAILED) harness_error("mmap of an output window failed");
+  }
+  uint8_t *pw = exact(P.data(), P.size()), *sl = exact(S.data(), S.size());
+  c01_pbkdf2_sha256(pw, P.size(), sl, S.size(), 1, out, dk);
+  free(pw), free(sl);
+  auto T = [&](uint64_t i) {
+    std::string m = S;
+    for (int b = 3; b >= 0; b--) m.push_back((char)(i >> (8 * b)));
+    return ossl_hmac(0, P, m);
+  };
+  auto judge = [&](uint64_t i) {  // block T_i lives at bytes [(i-1)*32, i*32)
+    if (!o.ok) return;
+    size_t off = (size_t)(i - 1) * 32, n = std::min<size_t>(32, dk - off);
+    std::string want = T(i);
+    if (memcmp(out + off, want.data(), n) != 0)
+      o.fail("pbkdf2-giant", "PBKDF2_SHA256(c=1, dkLen=" + std::to_string(dk) + "): output bytes " + std::to_string(off) + ".. (block T_" + std::to_string(i) + ") = " + hx(out + off, n) +
+                                 ", HMAC(P, S||INT(i)) = " + hex(want.substr(0, n)));
+  };
+  judge(1), judge(2), judge(3);
+  uint64_t last = (dk + 31) / 32;
+  for (uint64_t i = ((uint64_t)1 << 27) - 2; i <= last; i++) judge(i);
+  for (uint64_t i = (nwin - 2) * (WIN / 32) + 1; i < (nwin - 2) * (WIN / 32) + 4; i++) judge(i);
+  munmap(out, nwin * WIN);
+  close(mfd);
+  o.cls("pbkdf2:dkLen>2^32");
+  o.nontrivial = true;
+  return o;
+}
+// PBKDF2 with an iteration count that does not fit 32 bits: c = 2^32 + k, one output block.  The reference chain U_1 .. U_c runs over OpenSSL's
+// SHA256_* primitives (pad states kept, two compressions per iteration) in a second thread while the library computes; about a quarter of an hour.
+#pragma clang diagnostic push
+#pragma clang diagnostic ignored "-Wdeprecated-declarations"
+static std::string ref_pbkdf2_block1_fast(const std::string &P, const std::string &S, uint64_t c) {
+  uint8_t kpad[64], k0[64] = {0};
+  if (P.size() > 64) harness_error("password longer than a block");
+  memcpy(k0, P.data(), P.size());
+  SHA256_CTX ic, oc, t;
+  for (int i = 0; i < 64; i++) kpad[i] = k0[i] ^ 0x36;
+  SHA256_Init(&ic), SHA256_Update(&ic, kpad, 64);
+  for (int i = 0; i < 64; i++) kpad[i] = k0[i] ^ 0x5c;
+  SHA256_Init(&oc), SHA256_Update(&oc, kpad, 64);
+  uint8_t U[32], T[32], ih[32];
+  std::string m = S + std::string("\0\0\0\1", 4);
+  t = ic, SHA256_Update(&t, m.data(), m.size()), SHA256_Final(ih, &t);
+  t = oc, SHA256_Update(&t, ih, 32), SHA256_Final(U, &t);
+  memcpy(T, U, 32);
+  for (uint64_t j = 2; j <= c; j++) {
+    t = ic, SHA256_Update(&t, U, 32), SHA256_Final(ih, &t);
+    t = oc, SHA256_Update(&t, ih, 32), SHA256_Final(U, &t);
+    for (int k = 0; k < 32; k++) T[k] ^= U[k];
+  }
+  return std::string((char *)T, 32);
+}
+#pragma clang diagnostic pop
+static Outcome run_giant_iter(const Case &c) {
+  Outcome o;
+  if (c.empty() || c[0].a.size() < 2) return o;
+  uint64_t cc = ((uint64_t)1 << 32) + (uint64_t)(std::max<int64_t>(0, c[0].a[0]) % 3);
+  std::string P = prbytes(0x17e + (uint64_t)c[0].a[0], 1 + (size_t)(c[0].a[1] & 31)), S = prbytes(0x17f + (uint64_t)c[0].a[1], (size_t)(c[0].a[0] & 15));
+  if (ref_pbkdf2_block1_fast(P, S, 1000) != ref_pbkdf2(P, S, 1000, 32)) harness_error("fast PBKDF2 reference chain disagrees with the RFC 8018 loop at c = 1000");
+  std::string want;
+  std::thread th([&]() { want = ref_pbkdf2_block1_fast(P, S, cc); });
+  uint8_t *pw = exact(P.data(), P.size()), *sl = exact(S.data(), S.size()), *out = (uint8_t *)malloc(32);
+  c01_pbkdf2_sha256(pw, P.size(), sl, S.size(), cc, out, 32);
+  th.join();
+  std::string got((char *)out, 32);
+  free(pw), free(sl), free(out);
+  o.cls("pbkdf2:c>=2^32");
+  o.nontrivial = true;
+  if (got != want)
+    o.fail("pbkdf2-giant-iter", "PBKDF2_SHA256(P=" + hex(P) + ", S=" + hex(S) + ", c=" + std::to_string(cc) + ", dkLen=32) = " + hex(got) + ", the RFC 8018 chain over OpenSSL SHA-256 gives " + hex(want) +
+                                    (got == ref_pbkdf2(P, S, cc & 0xffffffff ? cc & 0xffffffff : 1, 32) ? " (the library's value is the one for c mod 2^32)" : ""));
+  return o;
+}
 static rc::Gen<Case> gen_giant(int) {
   return rc::gen::noShrink(rc::gen::exec([]() {
     Case c;
@@ -818,6 +928,14 @@ int main(int argc, char **argv) {
                     "one update call of 2^32 + k bytes (k in 0..2^20) of zeros from an untouched anonymous mapping, after 0..65 ordinary bytes: a length which does not fit 32 bits. "
                     "Oracle: OpenSSL EVP fed the same two pieces. Every case non-trivial",
                     gen_giant, [alg](const Case &c) { return run_giant(alg, c); }});
+  subs.push_back({"giant-pbkdf2",
+                  "PBKDF2-HMAC-SHA256 with c = 1 and dkLen = 2^32 + 1..300 bytes (2^27 blocks; output written into aliased address space); T_1..T_3 and all blocks "
+                  "from T_{2^27-2} on are compared with OpenSSL HMAC(P, S||INT(i)). Every case non-trivial",
+                  gen_giant, run_giant_pbkdf2});
+  subs.push_back({"giant-iter",
+                  "thorough only: PBKDF2-HMAC-SHA256 with c = 2^32 + 0..2 iterations, one block; reference = the RFC 8018 chain over OpenSSL's SHA-256 primitives, computed in a second thread "
+                  "(cross-checked against the HMAC-based loop at c = 1000). Every case non-trivial",
+                  gen_giant, run_giant_iter});
   subs.push_back({"giant-crc32c",
                   "CRC32C of 2^32 + k zero bytes (k in 0..2^20, buffer offset 0..15): ONE update call must give what nine calls of 2^29+13 bytes give (metamorphic: the split form is the "
                   "one the crc32c sub judges against the polynomial at small scale). Every case non-trivial",
